@@ -63,3 +63,9 @@ Example C17_skeleton_example :
   skel (lower_reduce "sum"%string d1 [PAx 3 4 false; PAx 1 2 false]) =
     SkReshape (SkTranspose (SkReshape (SkOther "sum"%string [SkReshape (SkIn 0)] ["1"%string; "kw:axis"%string])) [1; 0]%nat).
 Proof. vm_compute. split; reflexivity. Qed.
+
+Theorem C17_dot_skeleton_is_size_generic : forall d1 d2 dout d1' d2' dout',
+  lnames d1 = lnames d1' -> lnames d2 = lnames d2' -> lnames dout = lnames dout' ->
+  skel (lower_dot d1 d2 dout) = skel (lower_dot d1' d2' dout').
+Proof. exact skel_dot. Qed.
+Print Assumptions C17_dot_skeleton_is_size_generic.
